@@ -765,6 +765,22 @@ func (ex *Exec) assignTarget(c *SpecCtx, a *SExpr) (out []frameTarget) {
 					out = append(out, frameTarget{heap: name, sort: SArr(SInt, SArr(SInt, cp.Sort)), whole: true})
 				}
 				return
+			case "elemfield": // elemfield(T, Field): component(s) Field of all backing arrays of element type T
+				et := c.resolveType(typeArg(a.Args[1]))
+				fname := a.Args[2].Tok
+				n := 0
+				for _, cp := range flatten(et) {
+					if cp.Path == "."+fname || strings.HasPrefix(cp.Path, "."+fname+"$") || strings.HasPrefix(cp.Path, "."+fname+".") {
+						name := elemHeapName(et, cp)
+						markRefHolding(name, cp, true)
+						out = append(out, frameTarget{heap: name, sort: SArr(SInt, SArr(SInt, cp.Sort)), whole: true})
+						n++
+					}
+				}
+				if n == 0 {
+					c.fail("elemfield: no field %s", fname)
+				}
+				return
 			case "entries": // entries of one map
 				x := c.eval(a.Args[1])
 				mt := x.T
